@@ -921,6 +921,20 @@ func (e *Env) evalModItem(src string) (it ModItem, err error) {
 		}
 		return it, nil
 	}
+	if strings.HasPrefix(src, "anyfield(") && strings.HasSuffix(src, ")") {
+		// anyfield(Struct.field): that field of any object of the struct type
+		inner := src[len("anyfield(") : len(src)-1]
+		i := strings.LastIndex(inner, ".")
+		if i < 0 {
+			return it, fmt.Errorf("anyfield(Struct.field)")
+		}
+		t := e.x.ld.resolveTypeString(e.pkg.Name(), inner[:i])
+		if t == nil {
+			return it, fmt.Errorf("unknown type %s", inner[:i])
+		}
+		it.Kind, it.Owner, it.Path = "anyfield", t, inner[i+1:]
+		return it, nil
+	}
 	if strings.HasPrefix(src, "contents(") && strings.HasSuffix(src, ")") {
 		ex, err := e.parse(src[len("contents(") : len(src)-1])
 		if err != nil {
